@@ -18,7 +18,7 @@ def cur_values(world, h):
 
 
 def std_alphabet(world, h, redo_targets=None, touch=True, rm_targets=True, dovar=True, ifchange_targets=None,
-                 keep_going=False):
+                 keep_going=False, rm_sources=()):
     ops = []
     for t in (ifchange_targets or world.requests):
         ops.append(["ifchange", [t]])
@@ -31,6 +31,9 @@ def std_alphabet(world, h, redo_targets=None, touch=True, rm_targets=True, dovar
                 ops.append(["edit", s, v])
         if touch and cur[s] is not None:
             ops.append(["touch", s])
+    for sname in rm_sources:
+        if cur.get(sname) is not None:
+            ops.append(["rm", sname])
     if rm_targets:
         for t in world.targets:
             ops.append(["rm", t])
@@ -66,7 +69,9 @@ def run_property(pid, tier, plan, check_mod, level="model_checking", rule="", as
             if isinstance(alphabet, list):   # an explicit list of histories instead of an alphabet
                 r = ex.run_histories(world, alphabet, check_mod, opts=explore_opts or {}, twice=min(8, len(alphabet)))
             else:
-                r = ex.explore(world, alphabet, depth, check_mod, budget_s=left, opts=explore_opts or {})
+                o = dict(explore_opts or {})
+                o["shadow_min_len"] = depth   # (C17) a deepest history's shadow replay covers all its prefixes
+                r = ex.explore(world, alphabet, depth, check_mod, budget_s=left, opts=o)
             tot["states"] += r["states"]
             tot["transitions"] += r["transitions"]
             tot["histories"] += r["histories"]
